@@ -274,7 +274,7 @@ CLONE_CALLS = ("std::clone::Clone::clone", "<std::sync::Arc as std::clone::Clone
 PASSTHROUGH_CALLS = ("may::likely::likely", "may::likely::unlikely", "std::convert::Into::into",
                      "std::convert::From::from", "std::hint::black_box")
 
-_DEREF_RX = re.compile(r"<(std|core|alloc|smallvec|crossbeam\w*|parking_lot)::[^ ]* as std::ops::Deref(Mut)?>::deref(_mut)?")
+_DEREF_RX = re.compile(r"<(std|core|alloc|smallvec|crossbeam\w*|parking_lot|may_queue::atomic)::[^ ]* as std::ops::Deref(Mut)?>::deref(_mut)?")
 _INDEX_RX = re.compile(r"(core::slice|std::vec::Vec|smallvec::SmallVec|std::slice)(::\w+)*::(get_unchecked|get_unchecked_mut|index|index_mut|get|get_mut)|<[^ ]* as std::ops::Index(Mut)?>::index(_mut)?")
 _UNWRAP_RX = re.compile(r"std::(option::Option|result::Result)::(unwrap|expect|unwrap_unchecked)")
 
@@ -623,6 +623,8 @@ def direct_match(f, pt, ev):
             return False
         if n["s"] not in ("=", "setdiscr"):
             return False
+        if not n["l"]["p"]:
+            return False          # assignment to a plain local is not a field write
         fs = all_fields(simplify(trace_place(f, n["l"])))
         if not fs or fs[-1] != ev.on:
             return False
